@@ -10,7 +10,7 @@ Definition as_reply (s : sexp) : option reply :=
   | SL [SN 2] => Some (mkReply 2 0 FLen 0 0 0 true SNone false)
   | SL [SN 0; SN st; SN fr; SN n; SN f; SN sent; keep; SN sy; ea] =>
       let fo := match fr with 0 => Some FLen | 1 => Some FEof | 2 => Some FChunked | _ => None end in
-      let so := match sy with 0 => Some SNone | 1 => Some SSame | 2 => Some SSepResp | 3 => Some SSepJunk | _ => None end in
+      let so := match sy with 0 => Some SNone | 1 => Some SSame | 2 => Some SSepResp | 3 => Some SSepJunk | 4 => Some SLate | _ => None end in
       match fo, so, as_bool keep, as_bool ea with
       | Some fr, Some sy, Some keep, Some ea =>
           Some (mkReply 0 (N.to_nat st) fr (N.to_nat n) (N.to_nat f) (N.to_nat sent) keep sy ea)
